@@ -12,22 +12,47 @@ namespace Mesa.Devs
 /-- Chunking, both simulator classes: advancing a simulation through ANY list of pieces
     (`run_until t`, `run_for d`, `run_next_event`, in any mix) that stay within the horizon `T`, and then
     to `T`, ends in exactly the state — clock, pending events, step counter, complete execution trace —
-    that a single `run_until T` produces. -/
+    that a single `run_until T` produces: the one-piece run terminates, and EVERY terminating one-piece run
+    (whatever its fuel) ends in that state. -/
 theorem C15_chunking {s s₁ s₂ : Sim} {f f' : Nat} {T : Int} {ps : List Piece} (h : Reachable s)
     (hin : piecesWithin f T s ps) (hnorm : piecesNormal f s ps) (h₁ : runPieces f s ps = some s₁)
     (h₂ : runUntil f' s₁ T = some s₂) :
-    ∃ g, runUntil g s T = some s₂ :=
-  chunk_pieces (reachable_inv h).1 hin hnorm h₁ h₂
+    (∃ g, runUntil g s T = some s₂) ∧ ∀ g s₂', runUntil g s T = some s₂' → s₂' = s₂ := by
+  obtain ⟨g, hg⟩ := chunk_pieces (reachable_inv h).1 hin hnorm h₁ h₂
+  exact ⟨⟨g, hg⟩, fun g' s₂' h' => runUntil_det h' hg⟩
 
 /-- **Interrupted and resumed = uninterrupted.**  `resume f n s T`: the program calls `run_until(T)`; whenever an exception of a
     callable comes out of it, it catches the exception and calls `run_until(T)` again (at most `n` calls).  `runUntilC`: the
     uninterrupted run — the loop of `run_until` with every exception caught on the spot, i.e. the run in which the raising programs
     simply stop at their `raise`.  If the resumed run gets through, it ends with no exception pending in exactly the state —
-    clock, list, counters, complete execution trace — of the uninterrupted run: an exception costs nothing but the rest of the
+    clock, list, counters, complete execution trace — of the uninterrupted run: the uninterrupted run terminates, and EVERY
+    terminating uninterrupted run (whatever its fuel) ends in that very state.  An exception costs nothing but the rest of the
     program that raised. -/
 theorem C15_interrupted_run_resumed {s s' : Sim} {f n : Nat} {T : Int} (h : Reachable s) (h0 : s.raised = none)
-    (hres : resume f n s T = some s') : s'.raised = none ∧ ∃ g, runUntilC g s T = some s' :=
-  resume_runUntilC (reachable_inv h).1 h0 hres
+    (hres : resume f n s T = some s') :
+    s'.raised = none ∧ (∃ g, runUntilC g s T = some s') ∧ ∀ g s'', runUntilC g s T = some s'' → s'' = s' := by
+  obtain ⟨hn, g, hg⟩ := resume_runUntilC (reachable_inv h).1 h0 hres
+  exact ⟨hn, ⟨g, hg⟩, fun g' s'' h' => runUntilC_det h' hg⟩
+
+/-- **... and conversely (progress).**  Whenever the uninterrupted run terminates, the program that calls `run_until(T)` again
+    after every exception gets through after finitely many calls, in the same state; no exception is left pending. -/
+theorem C15_uninterrupted_run_is_resumed_run {s s' : Sim} {g : Nat} {T : Int} (h0 : s.raised = none)
+    (hc : runUntilC g s T = some s') : s'.raised = none ∧ ∃ f n, resume f n s T = some s' := by
+  obtain ⟨n, hn⟩ := resume_of_runUntilC h0 hc
+  exact ⟨runUntilC_calm h0 hc, g, n, hn⟩
+
+/-- The uninterrupted run and the resumed run are functions of (state, horizon): fuel and the bound on the number of calls are
+    termination devices only — more of either never changes a result, and two terminating runs agree. -/
+theorem C15_uninterrupted_run_fuel_irrelevant {f g n m : Nat} {s a b : Sim} {T : Int} :
+    (f ≤ g → runUntilC f s T = some a → runUntilC g s T = some a) ∧
+    (runUntilC f s T = some a → runUntilC g s T = some b → a = b) ∧
+    (f ≤ g → n ≤ m → resume f n s T = some a → resume g m s T = some a) ∧
+    (resume f n s T = some a → resume g m s T = some b → a = b) := by
+  refine ⟨runUntilC_fuel_le, runUntilC_det, fun hfg hnm h => resume_calls_le hnm (resume_fuel_le hfg h), ?_⟩
+  intro ha hb
+  have h1 := resume_calls_le (Nat.le_max_left n m) (resume_fuel_le (Nat.le_max_left f g) ha)
+  have h2 := resume_calls_le (Nat.le_max_right n m) (resume_fuel_le (Nat.le_max_right f g) hb)
+  rw [h1] at h2; exact Option.some.inj h2
 
 /-- ... and when nothing raises, the uninterrupted run is `run_until` itself. -/
 theorem C15_normal_run_is_uninterrupted_run {s s' : Sim} {f : Nat} {T : Int} (hr : runUntil f s T = some s')
@@ -35,12 +60,43 @@ theorem C15_normal_run_is_uninterrupted_run {s s' : Sim} {f : Nat} {T : Int} (hr
 
 /-- **Chunking with exceptions.**  Any list of pieces (`run_until t`, `run_for d`, `run_next_event`) within the horizon `T`, each of
     which may be cut short by an exception that the program catches before the next piece, followed by the uninterrupted run to
-    `T`, ends in exactly the state of the uninterrupted run to `T` from the start: where the cuts are, and which pieces met an
-    exception, does not matter. -/
+    `T`, ends in exactly the state of the uninterrupted run to `T` from the start — which terminates, and every terminating
+    uninterrupted run from the start ends in that state: where the cuts are, and which pieces met an exception, does not matter. -/
 theorem C15_chunking_with_exceptions {s s₁ s₂ : Sim} {f f' : Nat} {T : Int} {ps : List Piece} (h : Reachable s)
     (h0 : s.raised = none) (hin : piecesWithinC f T s ps) (h₁ : runPiecesC f s ps = some s₁)
-    (h₂ : runUntilC f' s₁ T = some s₂) : ∃ g, runUntilC g s T = some s₂ :=
-  chunkC_pieces (reachable_inv h).1 h0 hin h₁ h₂
+    (h₂ : runUntilC f' s₁ T = some s₂) :
+    (∃ g, runUntilC g s T = some s₂) ∧ ∀ g s₂', runUntilC g s T = some s₂' → s₂' = s₂ := by
+  obtain ⟨g, hg⟩ := chunkC_pieces (reachable_inv h).1 h0 hin h₁ h₂
+  exact ⟨⟨g, hg⟩, fun g' s₂' h' => runUntilC_det h' hg⟩
+
+/-- **Chunking with exceptions, progress.**  Conversely: whenever the uninterrupted run to `T` terminates (fuel `g`), EVERY list of
+    pieces within `T` — exceptions caught in between — terminates too (same fuel per piece), and from where the pieces end both the
+    uninterrupted run and the program that calls `run_until(T)` again after every exception reach that same final state. -/
+theorem C15_chunking_with_exceptions_progress {s s₂ : Sim} {g : Nat} {T : Int} {ps : List Piece} (h : Reachable s)
+    (h0 : s.raised = none) (hin : piecesWithinC g T s ps) (hc : runUntilC g s T = some s₂) :
+    ∃ s₁, runPiecesC g s ps = some s₁ ∧ runUntilC g s₁ T = some s₂ ∧ ∃ n, resume g n s₁ T = some s₂ := by
+  have hw := (reachable_inv h).1
+  obtain ⟨s₁, h1, h2⟩ := pieces_of_runUntilC hw h0 hin hc
+  obtain ⟨n, hn⟩ := resume_of_runUntilC (runPiecesC_inv hw h0 h1).2 h2
+  exact ⟨s₁, h1, h2, n, hn⟩
+
+/-- **Resumed in pieces = resumed in one piece** (the statement about programs only, no model-only loop in it): pieces within the
+    horizon, exceptions caught in between, then `run_until(T)` called again and again until it returns normally, against
+    `run_until(T)` called again and again from the start — if both get through they end in the same state, whatever the fuels,
+    the bounds on the number of calls and the positions of the cuts; and if the run in pieces gets through, so does the run
+    in one piece. -/
+theorem C15_resumed_in_pieces_eq_resumed_in_one_piece {s s₁ a : Sim} {f f₁ n₁ : Nat} {T : Int} {ps : List Piece}
+    (h : Reachable s) (h0 : s.raised = none) (hin : piecesWithinC f T s ps) (h₁ : runPiecesC f s ps = some s₁)
+    (ha : resume f₁ n₁ s₁ T = some a) :
+    (∃ f₂ n₂, resume f₂ n₂ s T = some a) ∧ ∀ f₂ n₂ b, resume f₂ n₂ s T = some b → b = a := by
+  have hw := (reachable_inv h).1
+  obtain ⟨hw₁, hc₁⟩ := runPiecesC_inv hw h0 h₁
+  obtain ⟨_, g₁, hg₁⟩ := resume_runUntilC hw₁ hc₁ ha
+  obtain ⟨g, hg⟩ := chunkC_pieces hw h0 hin h₁ hg₁
+  obtain ⟨n, hn⟩ := resume_of_runUntilC h0 hg
+  refine ⟨⟨g, n, hn⟩, fun f₂ n₂ b hb => ?_⟩
+  obtain ⟨_, g₂, hg₂⟩ := resume_runUntilC hw h0 hb
+  exact runUntilC_det hg₂ hg
 
 /-- Fuel is only a termination device: more fuel never changes a result. -/
 theorem C15_fuel_irrelevant {f g : Nat} {s s' : Sim} {T : Int} (hfg : f ≤ g)
